@@ -256,6 +256,52 @@ example : (exec (init 1) [.readAny false]).waiter = true := by decide +kernel
 example : (exec (init 1) [.feed [1, 2, 3]]).paused = true ∧
     (exec (init 1) [.feed [1, 2, 3], .readAny false]).paused = false := by decide +kernel
 
+/-- **End of stream un-pauses.** `feed_eof()` never leaves reading paused, whatever the reason it
+was paused for (bytes above high water, chunk count, partially drained between the marks): the
+next reader on the connection cannot inherit a paused transport. -/
+theorem feed_eof_unpauses (s : S) :
+    (feedEof s).1.paused = false ∧ (s.connected = true → (feedEof s).1.tpaused = false) ∧
+    (feedEof s).1.eof = true := by
+  simp only [feedEof, wake, resumeReading]
+  cases s.waiter <;> cases hc : s.connected <;> simp [hc]
+
+/-- **A recorded error is raised by every read call started afterwards** — whatever is buffered
+and whether or not `feed_eof` followed: `read(n)`, `read()`, `readany`, `readuntil`/`readline`,
+`readexactly`, `readchunk`, `read_nowait` and the four async iterators all raise the exception
+installed by `set_exception`; none reports data or a regular end of stream. -/
+theorem setChunk_exc (s : S) (n : Nat) : (setChunk s n).exc = s.exc := by
+  unfold setChunk; split <;> rfl
+
+theorem exception_raised_by_started_reads (s : S) (e : Nat) (he : s.exc = some e) (hp : s.parked = none) :
+    (∀ n it, (step s (.read n it)).2 = .err (.exc e)) ∧
+    (∀ it, (step s (.readAny it)).2 = .err (.exc e)) ∧
+    (∀ sep m it, sep ≠ [] → (step s (.readUntil sep m it)).2 = .err (.exc e)) ∧
+    (∀ n, (step s (.readExactly n)).2 = .err (.exc e)) ∧
+    (∀ it, (step s (.readChunk it)).2 = .err (.exc e)) ∧
+    (∀ n, (step s (.readNowait n)).2 = .err (.exc e)) := by
+  refine ⟨?_, ?_, ?_, ?_, ?_, ?_⟩
+  · intro n it
+    cases it <;> simp [step, core, consumer, hp, startRead, he, setChunk_exc, raise, iterOut]
+  · intro it
+    cases it <;> simp [step, core, consumer, hp, startReadAny, he, raise, iterOut]
+  · intro sep m it hs
+    have : sep.isEmpty = false := by cases sep <;> simp_all
+    cases it <;> simp [step, core, consumer, hp, startReadUntil, he, raise, iterOut, this]
+  · intro n
+    simp [step, core, consumer, hp, startReadExactly, he, raise, iterOut]
+  · intro it
+    cases it <;> simp [step, core, consumer, hp, contReadChunk, he, raise, iterOut]
+  · intro n
+    simp [step, core, hp, doReadNowait, he, raise]
+
+/-- **Known finding (C08-K2…K9).** The guarantee above does not extend to a call that was already
+parked: woken by a chunk end that brought no data, with `set_exception` and `feed_eof` arriving
+before it resumes, `read(2)` returns `b""` — a regular end of stream on a failed transfer
+(`_wait()` returns without re-checking `_exception`). -/
+theorem resumed_read_clean_end_after_exception :
+    (run (init 8) [.beginChunk, .feed [120], .readAny false, .read (some 2) false, .endChunk,
+                   .setExc 1, .feedEof, .wakeup]).2.getLast? = some (.data []) := by decide +kernel
+
 /-- **Known finding (limit = 0).** `no_stuck_pause` needs `0 < limit`: with `limit = 0`,
 feeding two bytes pauses (2 > 0), `readany()` drains them without resuming (0 < 0 is false),
 and the next `readany()` parks on the empty buffer with reading paused. -/
